@@ -283,6 +283,15 @@ func searchStrKey(p *binary.BinaryProtocol, key string, keyType proto.Type, mapF
 	return start, nil
 }
 
+// errBehavior returns the behavior code of a search error: error nodes carry one, errors coming
+// straight from the binary reader (meta.Error) are read errors.
+func errBehavior(err error) meta.ErrCode {
+	if en, ok := err.(Node); ok {
+		return en.ErrCode().Behavior()
+	}
+	return meta.ErrRead
+}
+
 func (self Value) GetByPath(pathes ...Path) Value {
 	value, _ := self.getByPath(pathes...)
 	return value
@@ -410,8 +419,7 @@ func (self Value) getByPath(pathes ...Path) (Value, []int) {
 			if i == len(pathes)-1 && err == errNotFound {
 				return Value{errNotFoundLast(unsafe.Pointer(uintptr(self.v)+uintptr(start)), tt), nil, false}, address
 			}
-			en := err.(Node)
-			return errValue(en.ErrCode().Behavior(), "invalid value node.", err), address
+			return errValue(errBehavior(err), "invalid value node.", err), address
 		}
 		// if not the last one, it must be a complex node, so need to skip tag
 		if i != len(pathes)-1 {
@@ -428,16 +436,14 @@ func (self Value) getByPath(pathes ...Path) (Value, []int) {
 		kt = desc.Key().Type()
 		et = desc.Elem().Type()
 		if s, err := p.SkipAllElements(desc.BaseId(), desc.IsPacked()); err != nil {
-			en := err.(Node)
-			return errValue(en.ErrCode().Behavior(), "invalid map node.", err), address
+			return errValue(errBehavior(err), "invalid map node.", err), address
 		} else {
 			size = s
 		}
 	case proto.LIST:
 		et = desc.Elem().Type()
 		if s, err := p.SkipAllElements(desc.BaseId(), desc.IsPacked()); err != nil {
-			en := err.(Node)
-			return errValue(en.ErrCode().Behavior(), "invalid list node.", err), address
+			return errValue(errBehavior(err), "invalid list node.", err), address
 		} else {
 			size = s
 		}
